@@ -60,6 +60,11 @@ type Unit struct {
 	Props    map[string]bool
 	Ghost    []ghostStmt
 	Returns  string // "fresh" (default) or "alias"
+	Domain   []Clause // assumed at entry, never checked: the domain the property quantifies over
+	Defined  []Clause // definedness preconditions (finite results): obligations of kind "def" at call sites
+	Source   string   // escaping closure: captured variable that is the source tensor of the back edge
+	Target   string   // escaping closure: captured variable that is the target tensor of the back edge
+	Implements string // abstract (function-type) contract this closure must satisfy
 }
 
 type specParam struct {
@@ -183,7 +188,7 @@ func (p *Program) collectLits(u *Unit, body ast.Node) {
 	})
 }
 
-var clauseRe = regexp.MustCompile(`^(requires|ensures|modifies|loop|takes|public|assumed|bounded|returns|ghost|props)\b(\[[A-Z0-9,]+\])?\s*(.*)$`)
+var clauseRe = regexp.MustCompile(`^(requires|ensures|modifies|loop|takes|public|assumed|bounded|returns|ghost|props|domain|defined|source|target|implements)\b(\[[A-Z0-9,]+\])?\s*(.*)$`)
 
 func (p *Program) specErr(where, msg string) {
 	p.SpecErr = append(p.SpecErr, where+": "+msg)
@@ -221,7 +226,7 @@ func (p *Program) parseSpecs(pkg *packages.Package) {
 			first := strings.Fields(t)[0]
 			first = strings.SplitN(first, "[", 2)[0]
 			switch first {
-			case "func", "closure", "abstract", "requires", "ensures", "modifies", "loop", "takes", "public", "assumed", "bounded", "define", "axiom", "returns", "ghost", "props":
+			case "func", "closure", "abstract", "requires", "ensures", "modifies", "loop", "takes", "public", "assumed", "bounded", "define", "axiom", "returns", "ghost", "props", "domain", "defined", "source", "target", "implements":
 				joined = append(joined, line{t, l.where})
 			default:
 				if len(joined) == 0 {
@@ -311,6 +316,20 @@ func (p *Program) parseSpecs(pkg *packages.Package) {
 					if c, ok := mk(rest); ok {
 						cur.Ensures = append(cur.Ensures, c)
 					}
+				case "domain":
+					if c, ok := mk(rest); ok {
+						cur.Domain = append(cur.Domain, c)
+					}
+				case "defined":
+					if c, ok := mk(rest); ok {
+						cur.Defined = append(cur.Defined, c)
+					}
+				case "source":
+					cur.Source = rest
+				case "target":
+					cur.Target = rest
+				case "implements":
+					cur.Implements = rest
 				case "modifies":
 					for _, x := range strings.Split(rest, ",") {
 						x = strings.TrimSpace(x)
@@ -403,7 +422,7 @@ func (p *Program) parseAbstract(pkg *packages.Package, short, decl string) (*Uni
 			return out, nil
 		}
 		for _, f := range fl.List {
-			tv, err := types.Eval(p.Fset, pkg.Types, token.NoPos, types.ExprString(f.Type))
+			tv, err := p.evalType(pkg, f.Type)
 			if err != nil {
 				return nil, fmt.Errorf("abstract %s: type %s: %v", name, types.ExprString(f.Type), err)
 			}
@@ -424,6 +443,37 @@ func (p *Program) parseAbstract(pkg *packages.Package, short, decl string) (*Uni
 	}
 	p.Units[u.Name] = u
 	return u, nil
+}
+
+// evalType resolves a type expression in the scope of pkg, including qualified names of imported packages.
+func (p *Program) evalType(pkg *packages.Package, e ast.Expr) (types.TypeAndValue, error) {
+	switch x := e.(type) {
+	case *ast.SelectorExpr:
+		if id, ok := x.X.(*ast.Ident); ok {
+			for _, imp := range pkg.Types.Imports() {
+				if imp.Name() == id.Name {
+					if obj := imp.Scope().Lookup(x.Sel.Name); obj != nil {
+						return types.TypeAndValue{Type: obj.Type()}, nil
+					}
+				}
+			}
+		}
+	case *ast.ArrayType:
+		if x.Len == nil {
+			tv, err := p.evalType(pkg, x.Elt)
+			if err != nil {
+				return tv, err
+			}
+			return types.TypeAndValue{Type: types.NewSlice(tv.Type)}, nil
+		}
+	case *ast.StarExpr:
+		tv, err := p.evalType(pkg, x.X)
+		if err != nil {
+			return tv, err
+		}
+		return types.TypeAndValue{Type: types.NewPointer(tv.Type)}, nil
+	}
+	return types.Eval(p.Fset, pkg.Types, token.NoPos, types.ExprString(e))
 }
 
 func parseMacro(s string) (*Macro, error) {
